@@ -182,6 +182,9 @@ var funcSpecs = []funcSpec{
 	{rel: "cmd/age", name: "(*LazyScryptIdentity).Unwrap", abstract: []string{"errors.Is", "format.DecodeString", "scrypt.Key", "age.aeadDecrypt"}},
 	{rel: "cmd/age", name: "(*EncryptedIdentity).Unwrap", abstract: []string{"main.decrypt", "errors.Is"},
 		opaque: map[string]string{"age.Identity": "ι"}, threaded: map[string][]string{"main.decrypt": {"i"}}},
+	{rel: "plugin", name: "(*ClientUI).handle", abstract: []string{"plugin.writeStanza", "plugin.writeStanzaWithBody", "format.DecodeString"},
+		opaque: map[string]string{"plugin.clientConnection": "χ", "io.Writer": "χ"},
+		threaded: map[string][]string{"plugin.writeStanza": {"conn"}, "plugin.writeStanzaWithBody": {"conn"}}},
 	{rel: "", name: "ParseRecipients", abstract: []string{"age.ParseX25519Recipient"}, opaque: map[string]string{"Recipient": "κ", "X25519Recipient": "κ"}, errInts: true},
 }
 
@@ -879,6 +882,9 @@ func (c *fctx) expr(e ast.Expr) string {
 			case types.FieldVal:
 				if _, ok := leanTypeOf(sel.Recv()); ok && len(sel.Index()) == 1 {
 					if c.nilableField(x) {
+						if _, isFn := sel.Obj().Type().Underlying().(*types.Signature); isFn {
+							c.fail(e, "a callback that may be nil is used as a value")
+						}
 						return "((" + c.expr(x.X) + ")." + fieldName(sel.Obj().Name()) + ".getD [])" // read as a value, nil is empty
 					}
 					return "(" + c.expr(x.X) + ")." + fieldName(sel.Obj().Name())
@@ -1364,6 +1370,29 @@ func (c *fctx) call(x *ast.CallExpr) string {
 					c.fail(x, "bufio.Scanner.%s", o.Name())
 				}
 			}
+			// an abstract callee that takes and hands back state, in expression position: hoisted in front of the statement
+			if c.isThreaded(o) {
+				t, n := c.emitThreaded(c.curE, c.curInd, x, x, o)
+				nres := o.Type().(*types.Signature).Results().Len()
+				proj := func(i int) string {
+					p := t + strings.Repeat(".2", i)
+					if i < n-1 {
+						p += ".1"
+					}
+					return p
+				}
+				switch nres {
+				case 0:
+					return "()"
+				case 1:
+					return proj(0)
+				}
+				var vals []string
+				for i := 0; i < nres; i++ {
+					vals = append(vals, proj(i))
+				}
+				return "(" + strings.Join(vals, ", ") + ")"
+			}
 			// a callee kept abstract: a parameter of the translated definition
 			if c.isAbstract(o) {
 				c.useAbstract(o)
@@ -1422,6 +1451,16 @@ func (c *fctx) call(x *ast.CallExpr) string {
 					return "(← " + an + " " + strings.Join(parts, " ") + ")"
 				}
 			}
+		}
+		// a call through a callback field that may be nil: calling nil panics
+		if _, isSig := o.Type().Underlying().(*types.Signature); isSig && o.IsField() && c.nilableField(ast.Unparen(x.Fun)) {
+			se := ast.Unparen(x.Fun).(*ast.SelectorExpr)
+			var parts []string
+			for _, a := range x.Args {
+				parts = append(parts, c.expr(a))
+			}
+			f := "(" + c.expr(se.X) + ")." + fieldName(se.Sel.Name)
+			return "(← (match " + f + " with | some f__ => f__ " + strings.Join(parts, " ") + " | none => throw (Go.Fault.panic 9999)))"
 		}
 		// a call through a struct field of function type (a callback the value carries)
 		if _, isSig := o.Type().Underlying().(*types.Signature); isSig && o.IsField() {
@@ -1669,6 +1708,11 @@ func (c *fctx) refuseAliasingAppend(x *ast.CallExpr) {
 // the doc comment of the definition).
 var nilableFields = map[string]bool{
 	"main.EncryptedIdentity.identities": true,
+	// callbacks that may be nil (tested before use)
+	"plugin.ClientUI.DisplayMessage": true,
+	"plugin.ClientUI.RequestValue":   true,
+	"plugin.ClientUI.Confirm":        true,
+	"plugin.ClientUI.WaitTimer":      true,
 }
 
 // nilableField: e selects a nilable field
